@@ -20,7 +20,8 @@ from harness import Part, ok, violation, skip
 
 PROPERTY = 'C03'
 LEVEL = 'exploration'
-RULE = ('Hypothesis: tree (<= 4 dirs, <= 7 files, hostile/hidden names, file '
+RULE = ('(single-path) the same prior states and edits, update_entry_for_path() for every edited path (one loader or one per path) + save: every entry of the path fresh or gone, rewritten Manifests referenced correctly. (update) ' 
+        'Hypothesis: tree (<= 4 dirs, <= 7 files, hostile/hidden names, file '
         'and directory symlinks) + arbitrary prior Manifest state (none = '
         'create; layouts with sub-Manifests in every format, a second '
         'Manifest in one directory, duplicates, lying entries, dropped '
